@@ -95,6 +95,7 @@ func (s *c08stats) add(sig, detail string, sample any) {
 func CheckC08(tier string) int {
 	start := time.Now()
 	st := &c08stats{byClient: map[string]int{}}
+	c08Thorough = tier == "thorough"
 	c08Tendermint(tier, st)
 	c08MPT(tier, st, "ETH")
 	c08MPT(tier, st, "BSC")
@@ -104,7 +105,7 @@ func CheckC08(tier string) int {
 		"states": len(st.byClient) + 1, "transitions": st.evals, "traces_validated_against_impl": st.evals,
 		"accepted": st.accepted, "rejected": st.rejected, "per_client": st.byClient, "samples": st.samples, "exhaustive": true,
 		"completeness_obligations": st.completenessChecked,
-		"bounds":                   "key universe {commitment, ack, clean point} x {(A,B,1),(A,B,2),(A,C,1)}; stored subsets at two recorded heights; claimed value {stored, another stored value, one byte off, empty, clean sequence +-1, leading-zero word}; proof {canonical, of another key, of the same key at the other root, op dropped, ops reordered, absence proof, truncated, garbage; MPT: wrong address, other account, wrong storage hash, two storage proofs, altered slot key}; proof height {recorded, unrecorded, latest+1}; delay {0, d} on both sides of the threshold",
+		"bounds":                   "key universe {commitment, ack, clean point} x {(A,B,1),(A,B,2),(A,C,1)} (thorough: + sequences 10, 11, 2^64-1 and a channel (A,D) whose clean point is above 2^40); stored subsets at two recorded heights; claimed value {stored, another stored value, one byte off, empty, clean sequence +-1, leading-zero word}; proof {canonical, of another key, of the same key at the other root, op dropped, ops reordered, absence proof, truncated, garbage; MPT: wrong address, other account, wrong storage hash, two storage proofs, altered slot key}; proof height {recorded, unrecorded, latest+1}; delay {0, d} on both sides of the threshold",
 	}
 	fmt.Fprintf(os.Stderr, "[C08] evaluations=%d accepted=%d rejected=%d per-client=%v (%.1fs)\n", st.evals, st.accepted, st.rejected, st.byClient, time.Since(start).Seconds())
 	return report.Finish("C08", tier, start, "model_checking", cov, []string{
@@ -116,12 +117,22 @@ func CheckC08(tier string) int {
 
 // ---------------------------------------------------------------------------------------------
 
+// c08Thorough widens the key universe: two-digit and maximal sequences, a third channel with a clean point above 2^40.
+var c08Thorough bool
+
 func c08universe() []c08key {
 	var u []c08key
+	chans := [][2]string{{A, B}, {A, C}}
+	if c08Thorough {
+		chans = append(chans, [2]string{A, D})
+	}
 	for _, kind := range []string{"commitment", "ack", "clean"} {
-		for _, ch := range [][2]string{{A, B}, {A, C}} {
+		for _, ch := range chans {
 			seqs := []uint64{1, 2}
-			if ch[1] == C {
+			if c08Thorough {
+				seqs = append(seqs, 10, 11, 1<<64-1)
+			}
+			if ch[1] != B {
 				seqs = []uint64{1}
 			}
 			if kind == "clean" {
@@ -152,6 +163,9 @@ func c08stored(k c08key, gen int) []byte {
 	default: // clean point (sequence as 8-byte big endian)
 		if k.dst == C {
 			return nil
+		}
+		if k.dst == D {
+			return sdk.Uint64ToBigEndian(uint64(1<<40 + 255 + gen))
 		}
 		return sdk.Uint64ToBigEndian(uint64(4 + gen))
 	}
